@@ -1,0 +1,21 @@
+//go:build verif
+
+package searcher
+
+// VerifTermRange is an exported view of one prefix-coded term range produced
+// by the unexported numeric range splitter.
+type VerifTermRange struct {
+	Start []byte
+	End   []byte
+}
+
+// VerifSplitInt64Range exposes splitInt64Range for verification harnesses
+// (build tag verif only).
+func VerifSplitInt64Range(minBound, maxBound int64, precisionStep uint) []VerifTermRange {
+	trs := splitInt64Range(minBound, maxBound, precisionStep)
+	rv := make([]VerifTermRange, 0, len(trs))
+	for _, tr := range trs {
+		rv = append(rv, VerifTermRange{Start: tr.startTerm, End: tr.endTerm})
+	}
+	return rv
+}
